@@ -77,7 +77,7 @@ fn gen_node(r: &mut Rng, profile: Profile) -> Node {
     let k = r.below(NKEYS as u64) as u8;
     let k2 = r.below(NKEYS as u64) as u8;
     let names = ["", "a", "bb"];
-    let n = if profile == Profile::C04 && r.chance(60) { 17 + r.below(2) } else { r.below(17) };
+    let n = if profile == Profile::C04 && r.chance(60) { 17 + r.below(4) } else { r.below(17) };
     match n {
         0 => Node::Val(k),
         1 => Node::Parity(k),
@@ -97,7 +97,9 @@ fn gen_node(r: &mut Rng, profile: Profile) -> Node {
         15 => Node::ViaMemoRef(k),
         16 => Node::Label(k),
         17 => Node::SameA(r.below(3) as u8),
-        _ => Node::SameB(r.below(3) as u8),
+        18 => Node::SameB(r.below(3) as u8),
+        19 => Node::GenX(r.below(3) as u8),
+        _ => Node::GenY(r.below(3) as u8),
     }
 }
 
